@@ -45,7 +45,9 @@ READY = True
 PLACES = ["page", "d", "n", "b", "anon"]
 CONTEXTS = {"c1": {"v": "1", "k": "ka"}, "c2": {"v": "2", "k": "ka"}, "c3": {"v": "3", "k": "kb"},
             # keys that are not strings: the key is the VALUE of cache_key, 5 and "5" are different keys
-            "c4": {"v": "4", "k": 5}, "c5": {"v": "5", "k": "5"}, "c6": {"v": "6", "k": 5}}
+            "c4": {"v": "4", "k": 5}, "c5": {"v": "5", "k": "5"}, "c6": {"v": "6", "k": 5},
+            # keys that are false in a boolean test: still the value of cache_key, not "no key"
+            "c7": {"v": "7", "k": 0}, "c8": {"v": "8", "k": ""}, "c9": {"v": "9", "k": 0}}
 
 
 def programs(tier):
@@ -548,8 +550,12 @@ def events(cfg):
             if prog["key"] == "literal":
                 ev.append(("invalidate", ti, "K1"))
             if prog["key"] == "ctx" and prog.get("ctxs"):
-                ev.append(("invalidate", ti, 5))
-                ev.append(("invalidate", ti, "5"))
+                ks = []
+                for cn_ in prog["ctxs"]:
+                    if CONTEXTS[cn_]["k"] not in ks or type(CONTEXTS[cn_]["k"]) not in [type(x) for x in ks if x == CONTEXTS[cn_]["k"]]:
+                        ks.append(CONTEXTS[cn_]["k"])
+                for k_ in ks[:2]:
+                    ev.append(("invalidate", ti, k_))
             elif prog["key"] == "ctx":
                 ev.append(("invalidate", ti, "ka"))
             if prog["key"] == "arg":
@@ -573,7 +579,7 @@ def events(cfg):
     return ev
 
 
-KEY_UNIVERSE = ["render_body", "render_d", "K1", "ka", "kb", "x", "y", "n", "render_b", "render_render_k", 5, "5"]
+KEY_UNIVERSE = ["render_body", "render_d", "K1", "ka", "kb", "x", "y", "n", "render_b", "render_render_k", 5, "5", 0, ""]
 
 
 def real_state(w):
@@ -665,6 +671,9 @@ def configs(tier):
     # cache keys that are not strings
     for be in backends[:2] if tier == "quick" else backends:
         cfgs.append({"prog": {"cached": ["d"], "key": "ctx", "flags": "", "args": "none", "ctxs": ["c4", "c5", "c6"]}, "backend": be, "max_depth": 30 if tier != "quick" else 7, "nofault": True})
+    # cache keys that are false in a boolean test (0, '')
+    for be in backends[:2] if tier == "quick" else backends[:3]:
+        cfgs.append({"prog": {"cached": ["d"], "key": "ctx", "flags": "", "args": "none", "ctxs": ["c7", "c8", "c9"]}, "backend": be, "max_depth": 30 if tier != "quick" else 6, "nofault": True})
     # several templates sharing one backend; URIs that differ only in punctuation
     for uris in (["t17a", "t17b"], ["t-x", "t_x"]):
         for be in backends[:2]:
